@@ -1,7 +1,8 @@
 (* C08 -- The result depends on the bytes only, not on how they are
    delivered.  Statements only ([exact] of lemmas from Proofs/ReaderFacts.v and
-   Proofs/IoWitnesses.v), Print Assumptions, pins, examples, and the
-   refutation witness of the full statement (known finding D4). *)
+   Proofs/IoWitnesses.v), Print Assumptions, pins, examples -- among them the
+   deliveries that failed before the repair of finding D4 (read_bom dropped
+   every chunk shorter than three bytes). *)
 From RM Require Import Model.Text Model.Encoding Model.Reader.
 From RM Require Import Proofs.EncodingFacts Proofs.ReaderFacts Proofs.TransparencyFacts Proofs.IoWitnesses.
 From RM Require Import Gen.Generated.
@@ -9,8 +10,11 @@ Open Scope Z_scope.
 
 (* ---------- pins ---------- *)
 
-(* read_bom keeps asking while a chunk has fewer than this many bytes *)
+(* read_bom collects up to this many bytes, over as many chunks as it takes,
+   and hands what lies behind the BOM on to the line reader *)
 Example pin_read_bom_min_len : read_bom_min_len = 3.
+Proof. reflexivity. Qed.
+Example pin_read_bom_accumulates : read_bom_accumulates = true.
 Proof. reflexivity. Qed.
 Example pin_bom_table :
   bom_table = [([239; 187; 191], 0, 3); ([255; 254], 2, 2); ([254; 255], 1, 2); ([], 0, 0)].
@@ -30,35 +34,49 @@ Print Assumptions C08_from_bytes_is_reference.
 
 (* ---------- T08 ---------- *)
 
-(* Full statement (REFUTED on the pinned tree, witness below):
-     forall b s1 s2, faultless s1 -> faultless s2 ->
-       read_all_lines (mk_reader b s1) = read_all_lines (mk_reader b s2).
-   Proved for every pair of schedules outside the D4 class, i.e. whose first
-   non-empty chunk has at least three bytes or is the whole stream
-   ([good_start]); chunk sizes after the first, and Interrupted events
-   anywhere (faultless only excludes hard failures), are arbitrary. *)
+(* The full statement: for ANY two faultless schedules of the same bytes --
+   every chunking down to single bytes, first chunks of one or two bytes, a
+   BOM split over several chunks, Interrupted anywhere ([faultless] only
+   excludes hard failures) -- the decode gives the same result.  (Refuted
+   before the repair of D4 by b = "[Metadata]\nTitle:abc\n", s1 = [],
+   s2 = [Chunk 2]; see C08_former_d4_deliveries.) *)
 Theorem C08_schedule_independent : forall b s1 s2,
   faultless s1 -> faultless s2 ->
-  good_start (length b) s1 = true -> good_start (length b) s2 = true ->
   read_all_lines (mk_reader b s1) = read_all_lines (mk_reader b s2).
 Proof. exact (schedule_independent decode_utf8_lossy_spec). Qed.
 Print Assumptions C08_schedule_independent.
 
 (* ... and the common value is what the bytes alone determine *)
 Theorem C08_function_of_bytes : forall b s,
-  faultless s -> good_start (length b) s = true ->
-  read_all_lines (mk_reader b s) = decode_stream b.
+  faultless s -> read_all_lines (mk_reader b s) = decode_stream b.
 Proof. exact (read_all_lines_faultless decode_utf8_lossy_spec). Qed.
 Print Assumptions C08_function_of_bytes.
 
-(* BufReader::with_capacity(c, _) with c >= 3 (n source calls scheduled, any n) *)
-Theorem C08_bufreader_capacity_ge3 : forall b c n, (3 <= Pos.to_nat c)%nat ->
-  read_all_lines (mk_reader b (repeat (Chunk c) n)) = decode_stream b.
-Proof. exact bufreader_capacity_ge3. Qed.
-Print Assumptions C08_bufreader_capacity_ge3.
+(* the same for every reader state (bytes already buffered included) *)
+Theorem C08_function_of_bytes_any_state : forall r,
+  faultless (sched r) -> read_all_lines r = decode_stream (bytes_of r).
+Proof. exact (read_all_lines_faultless_gen decode_utf8_lossy_spec). Qed.
+Print Assumptions C08_function_of_bytes_any_state.
 
-(* Interrupted results never matter, for any schedule (also inside the D4
-   class and with hard failures) *)
+(* BufReader::with_capacity(c, _) for EVERY capacity c >= 1 (n source calls
+   scheduled, any n) *)
+Theorem C08_bufreader_any_capacity : forall b c n,
+  read_all_lines (mk_reader b (repeat (Chunk c) n)) = decode_stream b.
+Proof. exact bufreader_any_capacity. Qed.
+Print Assumptions C08_bufreader_any_capacity.
+
+(* the BOM sniffing itself: on a faultless schedule read_bom ends up with the
+   first three bytes of the stream (all of it if shorter), however they are
+   chunked, and leaves the reader exactly behind them *)
+Theorem C08_read_bom_sees_first_three_bytes : forall fuel r head,
+  faultless (sched r) -> (msr r < fuel)%nat -> (length head <= 3)%nat ->
+  exists r', read_bom fuel r head = bom_finish (head ++ firstn (3 - length head) (bytes_of r)) r' /\
+             bytes_of r' = skipn (3 - length head) (bytes_of r) /\ faultless (sched r').
+Proof. exact read_bom_faultless. Qed.
+Print Assumptions C08_read_bom_sees_first_three_bytes.
+
+(* Interrupted results never matter, for any schedule (also with hard
+   failures), during BOM sniffing as everywhere else *)
 Theorem C08_interrupted_transparent : forall b s,
   read_all_lines (mk_reader b s) = read_all_lines (mk_reader b (strip_interrupted s)).
 Proof. exact (interrupted_transparent decode_utf8_lossy_spec). Qed.
@@ -75,8 +93,7 @@ Theorem C08_total : forall r, io_ok (read_all_lines r).
 Proof. exact (read_all_lines_ok decode_utf8_lossy_spec). Qed.
 Print Assumptions C08_total.
 
-(* a faultless delivery never yields an Err: for EVERY chunking (inside the D4
-   class too), every placement of Interrupted, every byte string and encoding
+(* a faultless delivery never yields an Err: for EVERY chunking, every placement of Interrupted, every byte string and encoding
    the result is a list of lines.  (Before the repair of D6 a UTF-16LE stream
    ending right after the low byte of a line feed gave Err(UnexpectedEof).) *)
 Theorem C08_faultless_never_fails : forall b s,
@@ -95,49 +112,65 @@ Theorem C08_error_only_from_schedule : forall r k,
 Proof. exact (read_all_lines_err_from_reader decode_utf8_lossy_spec). Qed.
 Print Assumptions C08_error_only_from_schedule.
 
-(* ---------- non-vacuity ---------- *)
+(* ---------- non-vacuity; the deliveries of the repaired finding D4 ---------- *)
 
 Example C08_nonvacuous :
-  good_start (length d4_bytes) [Interrupted; Chunk 3; Chunk 1; Interrupted; Chunk 1; Chunk 200] = true /\
   faultlessb [Interrupted; Chunk 3; Chunk 1; Interrupted; Chunk 1; Chunk 200] = true /\
-  show (read_all_lines (mk_reader d4_bytes [Interrupted; Chunk 3; Chunk 1; Interrupted; Chunk 1; Chunk 200]))
+  show (read_all_lines (mk_reader small_file [Interrupted; Chunk 3; Chunk 1; Interrupted; Chunk 1; Chunk 200]))
   = show (IoDone [lit "[Metadata]"; lit "Title:abc"]).
 Proof. vm_compute. repeat split. Qed.
 
+(* a first chunk of one or two bytes (before: those bytes were lost,
+   [Chunk 2; Chunk 100] gave "etadata]"), BufReader::with_capacity(2, _) and
+   (1, _) (before: an empty map), single bytes with Interrupted in between *)
+Example C08_former_d4_deliveries :
+  show (read_all_lines (mk_reader small_file [])) = show small_lines /\
+  show (read_all_lines (mk_reader small_file [Chunk 2])) = show small_lines /\
+  show (read_all_lines (mk_reader small_file [Chunk 2; Chunk 100])) = show small_lines /\
+  show (read_all_lines (mk_reader small_file [Chunk 1; Chunk 100])) = show small_lines /\
+  show (read_all_lines (mk_reader small_file (repeat (Chunk 2) 12))) = show small_lines /\
+  show (read_all_lines (mk_reader small_file (repeat (Chunk 1) 30))) = show small_lines /\
+  show (read_all_lines (mk_reader small_file (repeat (Chunk 3) 8))) = show small_lines /\
+  show (read_all_lines (mk_reader small_file [Chunk 1; Interrupted; Chunk 1; Interrupted; Interrupted; Chunk 1; Chunk 1])) = show small_lines.
+Proof. exact short_first_chunks_decode. Qed.
+
+(* a byte order mark split over several chunks, at every position *)
+Example C08_split_bom :
+  let text := lit "a" ++ [10] ++ lit "b" in
+  let L := show (IoDone [lit "a"; lit "b"]) in
+  show (read_all_lines (mk_reader (bom_utf8 ++ utf8_enc text) [Chunk 1; Chunk 1; Chunk 1; Chunk 100])) = L /\
+  show (read_all_lines (mk_reader (bom_utf8 ++ utf8_enc text) [Chunk 1; Chunk 2; Chunk 100])) = L /\
+  show (read_all_lines (mk_reader (bom_utf8 ++ utf8_enc text) [Chunk 2; Interrupted; Chunk 1; Chunk 100])) = L /\
+  show (read_all_lines (mk_reader (bom_utf8 ++ utf8_enc text) [Chunk 2; Chunk 2; Chunk 2; Chunk 2])) = L /\
+  show (read_all_lines (mk_reader (bom_le ++ utf16le_enc text) [Chunk 1; Interrupted; Chunk 1; Chunk 100])) = L /\
+  show (read_all_lines (mk_reader (bom_le ++ utf16le_enc text) (repeat (Chunk 1) 12))) = L /\
+  show (read_all_lines (mk_reader (bom_le ++ utf16le_enc text) (repeat (Chunk 2) 6))) = L /\
+  show (read_all_lines (mk_reader (bom_be ++ utf16be_enc text) [Chunk 1; Chunk 1; Chunk 100])) = L /\
+  show (read_all_lines (mk_reader (bom_be ++ utf16be_enc text) (repeat (Chunk 1) 12))) = L.
+Proof. exact split_bom_decodes. Qed.
+
+(* streams of zero to three bytes (before: one or two bytes were dropped even
+   by from_bytes) *)
+Example C08_short_streams :
+  show (read_all_lines (mk_reader [] [])) = show (IoDone []) /\
+  show (read_all_lines (mk_reader (lit "a") [])) = show (IoDone [lit "a"]) /\
+  show (read_all_lines (mk_reader (lit "ab") [])) = show (IoDone [lit "ab"]) /\
+  show (read_all_lines (mk_reader (lit "ab") [Chunk 1; Chunk 1])) = show (IoDone [lit "ab"]) /\
+  show (read_all_lines (mk_reader (lit "abc") [])) = show (IoDone [lit "abc"]) /\
+  show (read_all_lines (mk_reader (lit "abc") [Chunk 1; Chunk 1; Chunk 1])) = show (IoDone [lit "abc"]) /\
+  show (read_all_lines (mk_reader [255; 254] [])) = show (IoDone []) /\
+  show (read_all_lines (mk_reader [255; 254] [Chunk 1])) = show (IoDone []) /\
+  show (read_all_lines (mk_reader [239; 187; 191] [Chunk 1; Chunk 1])) = show (IoDone []) /\
+  show (read_all_lines (mk_reader [239; 187] [])) = show (IoDone [[65533]]) /\
+  show (read_all_lines (mk_reader [10] [])) = show (IoDone [[]]).
+Proof. exact short_streams_decode. Qed.
+
 (* the former D6 input (UTF-16LE `a` LF cut after the low byte of the line
-   feed): the same line at every chunking outside the D4 class, with
-   Interrupted at the extra-byte read of read_line *)
+   feed): the same line at every chunking, with Interrupted at the extra-byte
+   read of read_line *)
 Example C08_former_d6_input :
   show (read_all_lines (mk_reader [255; 254; 97; 0; 10] [])) = show (IoDone [lit "a"]) /\
   show (read_all_lines (mk_reader [255; 254; 97; 0; 10] [Chunk 3; Chunk 1; Chunk 1])) = show (IoDone [lit "a"]) /\
   show (read_all_lines (mk_reader [255; 254; 97; 0; 10] [Chunk 4; Chunk 1; Interrupted; Interrupted])) = show (IoDone [lit "a"]) /\
   show (read_all_lines (mk_reader [255; 254; 97; 0; 10] [Chunk 5; Interrupted])) = show (IoDone [lit "a"]).
 Proof. exact former_d6_input_decodes. Qed.
-
-(* ---------- refutation witness of the full statement (D4) ---------- *)
-
-Theorem C08_schedule_independent_refuted :
-  exists b s1 s2, faultless s1 /\ faultless s2 /\
-    read_all_lines (mk_reader b s1) <> read_all_lines (mk_reader b s2).
-Proof. exact schedule_independent_refuted. Qed.
-Print Assumptions C08_schedule_independent_refuted.
-
-(* the witness is in the excluded class, and only just *)
-Example C08_witness_class :
-  good_start (length d4_bytes) [Chunk 2] = false /\ good_start (length d4_bytes) [Chunk 3] = true.
-Proof. vm_compute. split; reflexivity. Qed.
-
-(* BufReader::with_capacity(2, _) loses the whole stream; capacity 3 does not;
-   a single short first chunk loses exactly its own bytes; a stream of one or
-   two bytes is dropped even by from_bytes *)
-Example C08_d4_readings :
-  show (read_all_lines (mk_reader d4_bytes (repeat (Chunk 2) 12))) = show (IoDone []) /\
-  show (read_all_lines (mk_reader d4_bytes [])) = show (IoDone [lit "[Metadata]"; lit "Title:abc"]) /\
-  show (read_all_lines (mk_reader d4_bytes (repeat (Chunk 3) 8))) = show (IoDone [lit "[Metadata]"; lit "Title:abc"]) /\
-  show (read_all_lines (mk_reader d4_bytes [Chunk 2; Chunk 100])) = show (IoDone [lit "etadata]"; lit "Title:abc"]).
-Proof. exact capacity_two_loses_everything. Qed.
-
-Example C08_short_stream_dropped :
-  show (read_all_lines (mk_reader (lit "ab") [])) = show (IoDone []) /\
-  show (read_all_lines (mk_reader (lit "abc") [])) = show (IoDone [lit "abc"]).
-Proof. exact short_stream_dropped. Qed.
